@@ -103,13 +103,15 @@ class AttackGraphNode:
             {}
         )
 
+        # Remember that self was already copied. This has to be done before
+        # the node's own data is copied, that data may refer back to the node
+        # (directly, or through another node or an attacker).
+        memo[id(self)] = copied_node
+
         copied_node.ttc = copy.deepcopy(self.ttc, memo)
         copied_node.tags = copy.deepcopy(self.tags, memo)
         copied_node.attributes = copy.deepcopy(self.attributes, memo)
         copied_node.extras = copy.deepcopy(self.extras, memo)
-
-        # Remember that self was already copied
-        memo[id(self)] = copied_node
 
         return copied_node
 
